@@ -135,6 +135,27 @@ func buildIndexFileInner(kind string, rows []map[string]string, path string) (id
 			ids = append(ids, id)
 		}
 		return ids, w.Flush()
+	case "mem2":
+		// second use of one writer: first into a caller-supplied database, then Flush to the file; the file is checked
+		w := updog.NewIndexWriter(path)
+		for _, r := range rows {
+			id, err := w.AddRow(r)
+			if err != nil {
+				return nil, err
+			}
+			ids = append(ids, id)
+		}
+		db, err := bbolt.Open(path+".first", 0644, boltOpts)
+		if err != nil {
+			return nil, err
+		}
+		err = w.WriteToBoltDatabase(db)
+		db.Close()
+		os.Remove(path + ".first")
+		if err != nil {
+			return nil, err
+		}
+		return ids, w.Flush()
 	case "memdb":
 		w := updog.NewIndexWriter("")
 		for _, r := range rows {
@@ -421,6 +442,9 @@ func runIdxCase(o *Oracle, c *IdxCase, rep *Report, fl idxFlags) {
 		}
 	}
 
+	if fl.prop == "C03" && c.Cache >= 0 {
+		mutationTie(o, path, c, rep)
+	}
 	if fl.prop == "C03" || fl.prop == "C04" {
 		tp := path + ".trace"
 		data, _ := os.ReadFile(path)
@@ -599,4 +623,83 @@ func traceTie(o *Oracle, path string, c *IdxCase, rep *Report) {
 			return
 		}
 	}
+}
+
+
+// mutationTie executes expression OBJECTS that are changed in place between executions (a leaf's value replaced, an
+// operand appended): each execution must still answer like the model does for the tree as it is at that moment.
+func mutationTie(o *Oracle, path string, c *IdxCase, rep *Report) {
+	mp := path + ".mut"
+	data, _ := os.ReadFile(path)
+	os.WriteFile(mp, data, 0644)
+	defer os.Remove(mp)
+	idx, _, err := openIdx(mp, c.Preload, c.Cache)
+	if err != nil {
+		return
+	}
+	defer idx.Close()
+	var leaves []*Ex
+	for qi := range c.Queries {
+		var collect func(e *Ex)
+		collect = func(e *Ex) {
+			if e.Op == "E" {
+				leaves = append(leaves, e)
+			}
+			for _, k := range e.Kids {
+				collect(k)
+			}
+		}
+		collect(c.Queries[qi].E)
+	}
+	if len(leaves) < 2 {
+		return
+	}
+	n := 0
+	for qi := range c.Queries {
+		q := &c.Queries[qi]
+		if q.E.Op == "E" || n >= 6 {
+			continue
+		}
+		n++
+		// a model-side copy and the live Go object
+		live := toExpr(q.E)
+		uq := &updog.Query{Expr: live}
+		first := safeExecute(idx, uq)
+		if want := o.Ask("idx q 0  " + q.E.Toks()); first != want {
+			continue // reported by the main loop already
+		}
+		// mutate: replace the value of the first leaf below the root by another leaf's pair, or append an operand
+		mod := cloneEx(q.E)
+		donor := leaves[(qi*7+3)%len(leaves)]
+		switch x := live.(type) {
+		case *updog.ExprAnd:
+			x.Exprs = append(x.Exprs, toExpr(donor))
+			mod.Kids = append(mod.Kids, donor)
+		case *updog.ExprOr:
+			x.Exprs = append(x.Exprs, toExpr(donor))
+			mod.Kids = append(mod.Kids, donor)
+		case *updog.ExprNot:
+			if leaf, ok := x.Expr.(*updog.ExprEqual); ok {
+				leaf.Column, leaf.Value = unhx(donor.C), unhx(donor.V)
+				mod.Kids[0] = donor
+			} else {
+				continue
+			}
+		}
+		got := safeExecute(idx, uq)
+		want := o.Ask("idx q 0  " + mod.Toks())
+		rep.Count("mutated-expression-objects")
+		if got != want {
+			rep.Violate(Violation{Kind: "history", Signature: "C03:stale-answer-after-expression-changed", What: fmt.Sprintf("an expression object was executed, changed in place (now %s) and executed again on a cached index: the answer is not the one for the changed expression", mod.Toks()), Expected: want, Actual: got, Case: c})
+			return
+		}
+	}
+}
+
+func cloneEx(e *Ex) *Ex {
+	c := &Ex{Op: e.Op, C: e.C, V: e.V}
+	for _, k := range e.Kids {
+		c.Kids = append(c.Kids, k)
+	}
+	return c
 }
